@@ -15,6 +15,7 @@ const (
 	SHdr   = "Hdr"
 	SBytes = "Bytes"
 	SSlice = "Slice"
+	SKey   = "Key" // datastore.Key values
 )
 
 // Term is an SMT-LIB term together with its sort.
@@ -256,6 +257,8 @@ const smtPrelude = `(set-option :produce-models true)
 (declare-sort Str 0)
 (declare-sort Err 0)
 (declare-sort Bytes 0)
+(declare-sort Key 0)
+(declare-fun emptyKey () Key)
 (declare-datatypes ((Slice 0)) (((mk-slice (s-arr Int) (s-off Int) (s-len Int) (s-cap Int)))))
 (declare-fun ix (Int Int) Int)
 (assert (forall ((o Int) (k Int)) (! (= (ix o k) (+ o k)) :pattern ((ix o k)))))
